@@ -520,3 +520,19 @@ Print Assumptions C01_ring_reading_total.
 Print Assumptions C01_ring_reading_agrees_with_eval.
 Print Assumptions C01_ring_reading_agrees_with_eval_wn.
 Print Assumptions C01_ring_fragment_evaluates.
+
+(* the tape side condition follows from the usual typing of tape values ([has_type]: the recorded
+   number of normalised elements), so the bridge holds for every well-typed tape *)
+From CC Require Proofs.RingEvalBridgeTyped.
+Theorem C01_ring_reading_agrees_with_eval_typed :
+  forall (T : ty) (tape : Z -> option value) (nodes : list node) (vals : list value),
+  wf_ring_graph T nodes = true -> RingEvalBridgeTyped.tape_typed nodes tape = true ->
+  eval_graph_nodes nodes tape = Ok vals ->
+  reading_mismatch (ring_w T) (ring_n T) tape nodes (tape_inputs nodes tape) vals = -1.
+Proof. exact RingEvalBridgeTyped.ring_reading_agrees_typed. Qed.
+
+(* the tape of the real evaluation above is well typed *)
+Example C01_bridge_example_typed : RingEvalBridgeTyped.tape_typed bx_nodes bx_tape = true.
+Proof. vm_compute. reflexivity. Qed.
+
+Print Assumptions C01_ring_reading_agrees_with_eval_typed.
